@@ -33,6 +33,14 @@ def main():
     g.add_argument("prop")
     g.add_argument("index", type=int)
     b = sub.add_parser("build")
+    mu = sub.add_parser("mutants")
+    mu.add_argument("--only", default=None)
+    mu.add_argument("--tests", action="store_true")
+    pa = sub.add_parser("patch")
+    pa.add_argument("patch")
+    pa.add_argument("--props", default="C12,C16,C17,C18")
+    pa.add_argument("--cases", type=int, default=None)
+    pa.add_argument("--tier", default="quick")
     args = ap.parse_args()
     del b
     master = int(os.environ.get("VERIF_SEED", "0") or 0)
@@ -57,6 +65,19 @@ def main():
             mod = engine.mod_for(args.prop)
             case = mod.make_case(gen.case_seed(master, args.prop, args.index), tree.all_facts(runner.DEFAULT_SRC), args.index)
             print(json.dumps(W.to_jsonable(case), indent=1, ensure_ascii=False))
+            sys.exit(0)
+        if args.cmd == "mutants":
+            from . import mutants  # pylint: disable=import-outside-toplevel
+
+            res = mutants.catalogue(only=args.only.split(",") if args.only else None, tests=args.tests)
+            bad = [r for r in res if not r["as_expected"]]
+            print(json.dumps(res, indent=1))
+            sys.exit(0 if not bad else 3)
+        if args.cmd == "patch":
+            from . import mutants  # pylint: disable=import-outside-toplevel
+
+            res = mutants.external_patch(args.patch, args.props.split(","), cases=args.cases, tier=args.tier)
+            print(json.dumps(res, indent=1))
             sys.exit(0)
         if args.cmd == "selftest":
             from . import selftest  # pylint: disable=import-outside-toplevel
